@@ -1,10 +1,10 @@
 package main
 
 import (
-	"crypto/elliptic"
 	"bytes"
 	"crypto/ecdsa"
 	"crypto/ed25519"
+	"crypto/elliptic"
 	"fmt"
 	"math/big"
 	"math/rand"
